@@ -9,7 +9,7 @@ MODEL = "C04"
 PROP_FILES = ["Props/C04.v"]
 RULE = ("handler outcome (27 return values: None/False/0/negative/>255/bool/numeric and non-numeric strings incl. '2.7', '1e2', "
         "'1_0'/floats incl. nan, inf, -0.5/sequences/objects; exceptions: RuntimeError, ValueError, library error, KeyboardInterrupt, exceptions with a 'code' "
-        "attribute, chained causes, 10 messages incl. multi-line, non-ASCII, opening/closing/unbalanced style tags, raised from a "
+        "attribute, chained causes (explicit and implicit), OSError, SyntaxError, a sixty-frame traceback, 10 messages incl. multi-line, non-ASCII, opening/closing/unbalanced style tags, raised from a "
         "source file, from exec'd source-less code, from a file containing markup) x verbosity {normal,-v,-vv,-vvv} x 8 pre-handle "
         "listener set-ups (pass / handle / handle+stop / fail) x exception catching on; x 16 command lines of a "
         "DefaultApplicationConfig application 'go [target] [--num INT] [-f]' with sub-command 'go deep [extra]' and a second command "
@@ -31,7 +31,8 @@ RETS = [None, False, 0, -3, 300, True, "12", " 7 ", "abc", "", 2.7, 0.3, 0.0, "n
         "2.7", "1e2", -0.5, "1_0", "+5"]
 MSGS = ["boom", "two\nlines", "naïve é λ", "<error>open", "close</error>", "</b>", "<b>bold</b> and <c1>x</c1>", "a < b > c",
         "trailing backslash \\", "<fg=red>x</>"]
-EXCS = ["RuntimeError", "ValueError", "Lib", "KeyboardInterrupt", "CodeInt", "CodeNone", "CodeStr", "Chained", "TypeError", "AttributeError"]
+EXCS = ["RuntimeError", "ValueError", "Lib", "KeyboardInterrupt", "CodeInt", "CodeNone", "CodeStr", "Chained", "TypeError", "AttributeError",
+        "Context", "OSError", "SyntaxError", "Deep"]
 ORIGINS = ["file", "exec", "markupfile"]
 LISTENERS = [[], [[0]], [[1, 0, 0]], [[1, 5, 1]], [[2, "RuntimeError"]], [[0], [1, "abc", 0]], [[1, None, 0], [0]], [[2, "Lib"]],
              [[2, "KeyboardInterrupt"]]]
@@ -220,6 +221,29 @@ def _mk_exc(name, msg):
         e = RuntimeError(msg)
         e.code = {"CodeInt": 3, "CodeNone": None, "CodeStr": "x"}[name]
         return e
+    if name == "Context":
+        # an implicit __context__: raised while another exception was being handled
+        try:
+            try:
+                raise KeyError("inner </error>")
+            except KeyError:
+                raise RuntimeError(msg)
+        except RuntimeError as e:
+            return e
+    if name == "OSError":
+        return OSError(2, msg, "/no/such <b>file")
+    if name == "SyntaxError":
+        return SyntaxError(msg, ("some <file>.py", 3, 7, "x = (</b>\n"))
+    if name == "Deep":
+        # raised sixty frames down
+        def down(n):
+            if n == 0:
+                raise RuntimeError(msg)
+            down(n - 1)
+        try:
+            down(60)
+        except RuntimeError as e:
+            return e
     if name == "Chained":
         try:
             try:
